@@ -1,3 +1,10 @@
+/-
+Lemmas for C18 (`FV/Props/C18.lean`): Go map idioms (`findLast?`, `dedupLast`), typedef
+expansion (`resolve?` is monotone in its fuel, `underlying` reaches a head-normal type),
+`checkType` logs a mismatch iff the expansions differ, every checker of the audit model
+against the corresponding part of the documented catalogue, one-hole type contexts, and the
+relation of compatible edits.
+-/
 import FV.Model.Audit
 import FV.Spec.Breaking
 namespace FV.AuditProofs
@@ -556,6 +563,245 @@ theorem checkServices_iff {old new : Prog}
       · intro m hm0 m' hm' _
         exact checkMethod_iff (ho s hs0 m hm0).1 (hn s' hs' m' hm').1 (ho s hs0 m hm0).2 (hn s' hs' m' hm').2
           (fun t ht => ro t (mem_allTys_method hs0 hm0 ht)) (fun t ht => rn t (mem_allTys_method hs' hm' ht))
+
+
+theorem wf_resolves {p : Prog} (h : WF p) : ∀ t ∈ p.allTys, Resolves p t := by
+  obtain ⟨_, _, _, _, _, _, _, _, _, _, _, hr, _⟩ := h
+  exact hr
+
+/-- The audit model fails exactly on the documented breaking changes. -/
+theorem audit_iff {old new : Prog} (ho : WF old) (hn : WF new) :
+    (audit old new).any Finding.isError = true ↔ Breaking old new := by
+  have ro := wf_resolves ho
+  have rn := wf_resolves hn
+  obtain ⟨_, _, _, _, ofs, _, osv, _, _, _, _, _, _⟩ := ho
+  obtain ⟨_, nen, nev, nst, nfs, nsv, nsv', nsc, nops, _, _, _, _⟩ := hn
+  unfold audit Breaking
+  simp only [List.any_append, Bool.or_eq_true, checkNamespaces_ok, checkConstants_ok,
+    Bool.false_eq_true, or_false]
+  rw [checkScopes_iff nsc nops ro rn, checkEnums_iff nen nev,
+    checkServices_iff nsv (fun s hs => (nsv' s hs).1) (fun s hs => (osv s hs).2)
+      (fun s hs => (nsv' s hs).2) ro rn]
+  rw [← structs_iff nst ofs nfs ro rn]
+  simp only [or_assoc]
+
+
+/-! ### any depth -/
+
+/-- `t` expands to `r` (with some fuel). -/
+def ResTo (tds : List Typedef) (t r : Ty) : Prop := ∃ f, resolve? tds f t = some r
+
+theorem ResTo.unique {tds : List Typedef} {t r r' : Ty} (h : ResTo tds t r) (h' : ResTo tds t r') : r = r' := by
+  obtain ⟨f, hf⟩ := h; obtain ⟨g, hg⟩ := h'; exact resolve?_fuel_indep hf hg
+
+theorem resTo_list {tds : List Typedef} {e r : Ty} (h : ResTo tds (.list e) r) :
+    ∃ x, ResTo tds e x ∧ r = .list x := by
+  obtain ⟨f, hf⟩ := h
+  cases f with
+  | zero => simp [resolve?] at hf
+  | succ f =>
+    simp only [resolve?, Option.map_eq_some_iff] at hf
+    obtain ⟨x, hx, rfl⟩ := hf; exact ⟨x, ⟨f, hx⟩, rfl⟩
+
+theorem resTo_set {tds : List Typedef} {e r : Ty} (h : ResTo tds (.set e) r) :
+    ∃ x, ResTo tds e x ∧ r = .set x := by
+  obtain ⟨f, hf⟩ := h
+  cases f with
+  | zero => simp [resolve?] at hf
+  | succ f =>
+    simp only [resolve?, Option.map_eq_some_iff] at hf
+    obtain ⟨x, hx, rfl⟩ := hf; exact ⟨x, ⟨f, hx⟩, rfl⟩
+
+theorem resTo_map {tds : List Typedef} {k v r : Ty} (h : ResTo tds (.map k v) r) :
+    ∃ x y, ResTo tds k x ∧ ResTo tds v y ∧ r = .map x y := by
+  obtain ⟨f, hf⟩ := h
+  cases f with
+  | zero => simp [resolve?] at hf
+  | succ f =>
+    simp only [resolve?] at hf
+    cases hk : resolve? tds f k with
+    | none => simp [hk] at hf
+    | some k' =>
+      cases hv : resolve? tds f v with
+      | none => simp [hk, hv] at hf
+      | some v' =>
+        simp only [hk, hv] at hf
+        exact ⟨k', v', ⟨f, hk⟩, ⟨f, hv⟩, (Option.some.inj hf).symm⟩
+
+/-- A difference in the hole is a difference of the whole types. -/
+theorem plug_differs {otds ntds : List Typedef} {a b : Ty}
+    (hab : ∀ x y, ResTo otds a x → ResTo ntds b y → x ≠ y) :
+    ∀ (c : TyCtx) {ra rb : Ty}, ResTo otds (c.plug a) ra → ResTo ntds (c.plug b) rb → ra ≠ rb := by
+  intro c
+  induction c with
+  | hole => intro ra rb h1 h2; exact hab _ _ h1 h2
+  | list c ih =>
+    intro ra rb h1 h2
+    obtain ⟨x, hx, rfl⟩ := resTo_list h1
+    obtain ⟨y, hy, rfl⟩ := resTo_list h2
+    intro h; exact ih hx hy (Ty.list.inj h)
+  | set c ih =>
+    intro ra rb h1 h2
+    obtain ⟨x, hx, rfl⟩ := resTo_set h1
+    obtain ⟨y, hy, rfl⟩ := resTo_set h2
+    intro h; exact ih hx hy (Ty.set.inj h)
+  | mapKey c v ih =>
+    intro ra rb h1 h2
+    obtain ⟨x, _, hx, _, rfl⟩ := resTo_map h1
+    obtain ⟨y, _, hy, _, rfl⟩ := resTo_map h2
+    intro h; exact ih hx hy (Ty.map.inj h).1
+  | mapVal k c ih =>
+    intro ra rb h1 h2
+    obtain ⟨_, x, _, hx, rfl⟩ := resTo_map h1
+    obtain ⟨_, y, _, hy, rfl⟩ := resTo_map h2
+    intro h; exact ih hx hy (Ty.map.inj h).2
+
+theorem typeChanged_plug {old new : Prog} {a b : Ty} (c : TyCtx)
+    (hra : Resolves old (c.plug a)) (hrb : Resolves new (c.plug b))
+    (hab : ∃ x y, ResTo old.typedefs a x ∧ ResTo new.typedefs b y ∧ x ≠ y) :
+    TypeChanged old new (c.plug a) (c.plug b) := by
+  obtain ⟨x, y, hx, hy, hne⟩ := hab
+  obtain ⟨ra, hra'⟩ := Option.isSome_iff_exists.mp hra
+  obtain ⟨rb, hrb'⟩ := Option.isSome_iff_exists.mp hrb
+  unfold TypeChanged
+  rw [hra', hrb']
+  intro h
+  refine plug_differs (fun x' y' hx' hy' => ?_) c ⟨_, hra'⟩ ⟨_, hrb'⟩ (Option.some.inj h)
+  rw [hx'.unique hx, hy'.unique hy]; exact hne
+
+/-! ### compatible edits -/
+
+theorem typeChanged_same {p p' : Prog} {t : Ty} (htd : p'.typedefs = p.typedefs)
+    (h : Resolves p t) (h' : Resolves p' t) : ¬ TypeChanged p p' t t := by
+  obtain ⟨r, hr⟩ := Option.isSome_iff_exists.mp h
+  obtain ⟨r', hr'⟩ := Option.isSome_iff_exists.mp h'
+  unfold TypeChanged
+  rw [htd] at hr'
+  rw [htd, hr, hr', resolve?_fuel_indep hr hr']
+  simp
+
+theorem fieldsCompat_not_breaking {p p' : Prog} (htd : p'.typedefs = p.typedefs) {ofs nfs : List Field}
+    (hn : fieldsWF nfs) (hc : FieldsCompat ofs nfs)
+    (ro : ∀ f ∈ ofs, Resolves p f.ty) (rn : ∀ g ∈ nfs, Resolves p' g.ty) :
+    ¬ FieldsBreaking p p' ofs nfs := by
+  rintro (⟨f, hf, g, hg, hid, hbad⟩ | ⟨f, hf, _, hall⟩ | ⟨g, hg, hreq, hall⟩)
+  · obtain ⟨g', hg', hid', hty, hreq⟩ := hc.1 f hf
+    have : g = g' := uniq_of_nodup_map hn g hg g' hg' (hid.trans hid'.symm)
+    subst this
+    rcases hbad with h | h
+    · rw [hty] at h
+      exact typeChanged_same htd (ro f hf) (hty ▸ rn g hg) h
+    · exact h hreq.symm
+  · obtain ⟨g', hg', hid', _⟩ := hc.1 f hf; exact hall g' hg' hid'
+  · obtain ⟨f, hf, hid⟩ := hc.2 g hg hreq; exact hall f hf hid
+
+theorem fieldsCompat_nonempty {ofs nfs : List Field} (hc : FieldsCompat ofs nfs) (h : ofs ≠ []) : nfs ≠ [] := by
+  cases ofs with
+  | nil => exact absurd rfl h
+  | cons f _ =>
+    obtain ⟨g, hg, _⟩ := hc.1 f List.mem_cons_self
+    intro hnil; rw [hnil] at hg; cases hg
+
+theorem methodCompat_not_breaking {p p' : Prog} (htd : p'.typedefs = p.typedefs) {m m' : Method}
+    (ha' : fieldsWF m'.args) (he' : fieldsWF m'.excs) (hc : MethodCompat m m')
+    (ro : ∀ t ∈ m.tys, Resolves p t) (rn : ∀ t ∈ m'.tys, Resolves p' t) :
+    ¬ MethodBreaking p p' m m' := by
+  obtain ⟨how, hret, hargs, hexcs, hvoid⟩ := hc
+  have mem_ret : ∀ (m : Method) t, m.ret = some t → t ∈ m.tys := by
+    intro m t h; simp [Method.tys, h]
+  have mem_arg : ∀ (m : Method) f, f ∈ m.args → f.ty ∈ m.tys := by
+    intro m f h; simp only [Method.tys, List.mem_append, List.mem_map]; exact Or.inl (Or.inr ⟨f, h, rfl⟩)
+  have mem_exc : ∀ (m : Method) f, f ∈ m.excs → f.ty ∈ m.tys := by
+    intro m f h; simp only [Method.tys, List.mem_append, List.mem_map]; exact Or.inr ⟨f, h, rfl⟩
+  rintro (h | h | h | h | ⟨h1, h2, h3⟩ | ⟨_, h2, h3⟩)
+  · exact h how.symm
+  · rw [hret] at h
+    cases hr : m.ret with
+    | none => rw [hr] at h; exact h
+    | some t =>
+      rw [hr] at h
+      exact typeChanged_same htd (ro t (mem_ret m t hr)) (rn t (mem_ret m' t (hret ▸ hr))) h
+  · exact fieldsCompat_not_breaking htd ha' hargs (fun f hf => ro _ (mem_arg m f hf))
+      (fun f hf => rn _ (mem_arg m' f hf)) h
+  · exact fieldsCompat_not_breaking htd he' hexcs (fun f hf => ro _ (mem_exc m f hf))
+      (fun f hf => rn _ (mem_exc m' f hf)) h
+  · exact h3 (hvoid h1 h2)
+  · exact fieldsCompat_nonempty hexcs h3 h2
+
+theorem prefixAgree_refl : ∀ p : List PTok, prefixAgree p p
+  | [] => trivial
+  | a :: p => ⟨by cases a <;> simp [tokAgree], prefixAgree_refl p⟩
+
+theorem compatible_not_breaking {p p' : Prog} (hw : WF p) (hw' : WF p') (hc : Compatible p p') :
+    ¬ Breaking p p' := by
+  have ro := wf_resolves hw
+  have rn := wf_resolves hw'
+  obtain ⟨_, nen, nev, nst, nfs, nsv, nsv', nsc, nops, _, _, _, _⟩ := hw'
+  obtain ⟨htd, cscopes, cenums, cstructs, cservices⟩ := hc
+  rintro (h | h | h | h)
+  · obtain ⟨s, hs, h⟩ := h
+    obtain ⟨s1, hs1, hn1, hp1, hops1⟩ := cscopes s hs
+    rcases h with h | ⟨s', hs', hn', h⟩
+    · exact h s1 hs1 hn1
+    · have : s' = s1 := uniq_of_nodup_map nsc s' hs' s1 hs1 (hn'.trans hn1.symm)
+      subst this
+      rcases h with h | ⟨o, ho, h⟩
+      · exact h hp1
+      · obtain ⟨o1, ho1, hon1, hty1⟩ := hops1 o ho
+        rcases h with h | ⟨o', ho', hon', h⟩
+        · exact h o1 ho1 hon1
+        · have : o' = o1 := uniq_of_nodup_map (nops s' hs') o' ho' o1 ho1 (hon'.trans hon1.symm)
+          subst this
+          rw [hty1] at h
+          exact typeChanged_same htd (ro _ (mem_allTys_op hs ho)) (hty1 ▸ rn _ (mem_allTys_op hs' ho')) h
+  · obtain ⟨e, he, e', he', hn', v, hv, h⟩ := h
+    obtain ⟨v', hv', hnum⟩ := cenums e he e' he' hn' v hv
+    exact h v' hv' hnum
+  · obtain ⟨s, hs, h⟩ := h
+    obtain ⟨s1, hs1, hk1, hn1, hf1⟩ := cstructs s hs
+    rcases h with h | ⟨s', hs', hk', hn', h⟩
+    · exact h s1 hs1 ⟨hk1, hn1⟩
+    · have : s' = s1 := uniq_of_nodup_map nst s' hs' s1 hs1 (by simp only [hk', hn', hk1, hn1])
+      subst this
+      exact fieldsCompat_not_breaking htd (nfs s' hs') hf1 (fun f hf => ro _ (mem_allTys_field hs hf))
+        (fun f hf => rn _ (mem_allTys_field hs' hf)) h
+  · obtain ⟨s, hs, h⟩ := h
+    obtain ⟨s1, hs1, hn1, hext1, hm1⟩ := cservices s hs
+    rcases h with h | ⟨s', hs', hn', h⟩
+    · exact h s1 hs1 hn1
+    · have : s' = s1 := uniq_of_nodup_map nsv s' hs' s1 hs1 (hn'.trans hn1.symm)
+      subst this
+      rcases h with ⟨hne, hch⟩ | ⟨m, hm, h⟩
+      · rcases hext1 with h0 | h0
+        · exact hne h0
+        · exact hch h0
+      · obtain ⟨m1, hm1', hmn1, hmc⟩ := hm1 m hm
+        rcases h with h | ⟨m', hm', hmn', h⟩
+        · exact h m1 hm1' hmn1
+        · have : m' = m1 := uniq_of_nodup_map (nsv' s' hs').1 m' hm' m1 hm1' (hmn'.trans hmn1.symm)
+          subst this
+          exact methodCompat_not_breaking htd ((nsv' s' hs').2 m' hm').1 ((nsv' s' hs').2 m' hm').2 hmc
+            (fun t ht => ro t (mem_allTys_method hs hm ht)) (fun t ht => rn t (mem_allTys_method hs' hm' ht)) h
+
+theorem fieldsCompat_refl (fs : List Field) : FieldsCompat fs fs :=
+  ⟨fun f hf => ⟨f, hf, rfl, rfl, Iff.rfl⟩, fun g hg _ => ⟨g, hg, rfl⟩⟩
+
+theorem fieldsCompat_map {fs : List Field} (h : Field → Field)
+    (hpres : ∀ f, (h f).id = f.id ∧ (h f).ty = f.ty ∧ (h f).mod = f.mod) :
+    FieldsCompat fs (fs.map h) := by
+  refine ⟨fun f hf => ⟨h f, List.mem_map_of_mem hf, (hpres f).1, (hpres f).2.1, by rw [(hpres f).2.2]⟩, ?_⟩
+  intro g hg _
+  obtain ⟨f, hf, rfl⟩ := List.mem_map.mp hg
+  exact ⟨f, hf, ((hpres f).1).symm⟩
+
+theorem compatible_refl {p : Prog} (hw : WF p) : Compatible p p := by
+  obtain ⟨_, hen, _⟩ := hw
+  refine ⟨rfl, fun s hs => ⟨s, hs, rfl, prefixAgree_refl _, fun o ho => ⟨o, ho, rfl, rfl⟩⟩, ?_,
+    fun s hs => ⟨s, hs, rfl, rfl, fieldsCompat_refl _⟩,
+    fun s hs => ⟨s, hs, rfl, Or.inr rfl, fun m hm => ⟨m, hm, rfl, rfl, rfl, fieldsCompat_refl _, fieldsCompat_refl _, fun _ h => h⟩⟩⟩
+  intro e he e' he' hn v hv
+  have : e' = e := uniq_of_nodup_map hen e' he' e he hn
+  subst this; exact ⟨v, hv, rfl⟩
 
 
 end FV.AuditProofs
